@@ -28,7 +28,7 @@ def register(PROPS):
                      'boundaries on either side + first + last; durs: the same instants x 33 durations (1 ms .. 36525 d, incl. 2^31 and 2^32 ms) of both signs; '
                      'fixup: 199 years x m 1..24 x d 1..62 x (H 0..48 | all-day) x M {0,59,60,119} x S {0,59,60,63} x ms {0,999,1000,1022,all-sec}; '
                      'epoch (both library directions) and tstamp: every day x seconds {0,1,43199,43200,86399} (+ all-day, .000/.999 ms for tstamp)',
-            'thorough': 'days: ALL ordered pairs of days 1901..2099 (72683^2) for diff and order in both kinds; add for every |delta| <= 1500 d and '
+            'thorough': 'days: ALL ordered pairs of days 1901..2099 (72684^2) for diff and order in both kinds; add for every |delta| <= 1500 d and '
                         'beyond that every 3rd delta (all-day kind) / every 25th delta (whole-second kind); intraday: every ordered pair of boundaries '
                         '(24x24 instants within 12 boundaries, 10x10 beyond); epoch both directions and tstamp: EVERY second of 1901-2099; '
                         'durs and fixup as in quick',
